@@ -916,7 +916,9 @@ class C16(Prop):
         mk("save-variable-length-limit", ["rt s" + "61" * n for n in (199998, 199999)] + ["rt a[i1,i2]"])
         # an array_t counts its members in an unsigned short: a class text with more than 65535 members is refused (it came
         # back with the count truncated: 65536 members as a class of none)
-        mk("class-member-count", ["rv " + (b"(/" + b"1," * n + b"/)").hex() for n in (65535, 65536)] +
+        # (65535 members - the largest class that restores - only in the thorough tier, see generate(): the model appends
+        # element by element, 47 s for that one text)
+        mk("class-member-count", ["rv " + (b"(/" + b"1," * n + b"/)").hex() for n in (20000, 65536)] +
            ["rv " + (b"({(/" + b"1," * 65537 + b"/),})").hex(), "rt c(i1,i2)"])
         mk("restore-after-error", ["rv " + ("({({1,2,3,}),({" + "1," * 20000 + "}),})").encode().hex(),
                                    "rx a[i1,i2] " + b"({1,2,})".hex(), "rx c(i1,i2) " + b"(/1,2,/)".hex(),
@@ -1194,7 +1196,12 @@ class C16(Prop):
         return E.Case(cid, lines, {"origin": "generated", "kind": kind})
 
     def generate(self, rng, n, tier):
-        return [self.gen_case(rng, "g%d" % i, tier) for i in range(n)]
+        cases = [self.gen_case(rng, "g%d" % i, tier) for i in range(n)]
+        if tier == "thorough":
+            cases.append(E.Case("g-class-65535", ["rm", "rv " + (b"(/" + b"1," * 65535 + b"/)").hex(),
+                                                  "rv " + (b"(/" + b"1," * 65536 + b"/)").hex()],
+                                {"origin": "generated", "kind": "class-limit"}))
+        return cases
 
     def mutate_around(self, case, rng, n):
         out = []
